@@ -813,7 +813,9 @@ def run_redirects(ctx, case):
     nontrivial = False
     for i, (m, plan, st_) in enumerate(zip(members, plans, sts)):
         if "outcome" not in st_:
-            raise AssertionError("redirect history member %d was not run" % i)
+            # depends on the tree under test (an earlier fetch of the history broke the scenario): a violation
+            ctx.fail("C09.history_fetch_not_run", {"fetch": i})
+            continue
         lab, nt = judge_redirect(ctx, m, plan, st_, i, len(members))
         labels |= lab
         nontrivial = nontrivial or nt
